@@ -21,6 +21,24 @@ class ToolError(Exception):
     """Build failure, TLC crash, timeout: exit 2, never a VIOLATION."""
 
 
+class SubjectCrash(Exception):
+    """A harness binary driving the code under test died (panic that escaped,
+    abort in a destructor, signal): the code under test brought the process
+    down.  That is data, not a tool error: reported as a VIOLATION."""
+
+    def __init__(self, cmd, rc, out):
+        super().__init__(f"process died rc={rc}: {' '.join(map(str, cmd))[:200]}")
+        self.cmd, self.rc, self.out = cmd, rc, out
+
+
+def run_subject(cmd, timeout=None, env=None, cwd=None):
+    """Run a harness binary that drives the code under test."""
+    p = run(cmd, timeout=timeout, env=env, cwd=cwd, check=False)
+    if p.returncode != 0:
+        raise SubjectCrash(cmd, p.returncode, (p.stdout or "")[-6000:])
+    return p
+
+
 def log(*a):
     print(*a, file=sys.stderr, flush=True)
 
